@@ -140,27 +140,47 @@ struct World
 
 	void connect(Conn& c)
 	{
-		c.accept_overload = rng.choose(2);
+		c.accept_overload = rng.choose(3);
 		c.aop = ops.make("tcp.accept", 1000 + c.id);
-		auto ah = track1(c.aop, [this, &c](error_code const& ec) {
+		auto on_acc = [this, &c](error_code const& ec) {
 			if (ec) { c.acc_failed = true; return; }
 			c.accepted = true;
 			error_code e2; API(c.ssock->non_blocking(true, e2));
 			kick(c);
-		});
+		};
 		ip::tcp::acceptor* acc = accs[std::size_t(c.id)].get();
-		if (c.accept_overload == 0) API(acc->async_accept(*c.ssock, std::move(ah)));
-		else API(acc->async_accept(*c.ssock, c.peer_ep, std::move(ah)));
+		if (c.accept_overload == 0) API(acc->async_accept(*c.ssock, track1(c.aop, on_acc)));
+		else if (c.accept_overload == 1) API(acc->async_accept(*c.ssock, c.peer_ep, track1(c.aop, on_acc)));
+		else
+		{
+			// the socket-returning overload: the library move-constructs the connected socket (several times)
+			OpPtr rec = c.aop;
+			API(acc->async_accept([this, &c, rec, on_acc](error_code const& ec, ip::tcp::socket peer) mutable {
+				on_invoke(*rec, ec, 0);
+				if (!ec) { c.ssock.reset(new ip::tcp::socket(std::move(peer))); c.s.sock = c.ssock.get(); R().count("accepted_sockets_move_constructed"); }
+				on_acc(ec);
+			}));
+		}
 		c.cop = ops.make("tcp.connect", c.id * 2);
 		API(c.csock->async_connect(ip::tcp::endpoint(B, std::uint16_t(4000 + c.id)), track1(c.cop, [this, &c](error_code const& ec) {
 			if (ec) { c.conn_failed = true; return; }
 			c.connected = true;
+			if (move_after_connect)
+			{
+				// a connected socket with nothing outstanding may be moved; the new object carries the connection
+				std::unique_ptr<ip::tcp::socket> n;
+				API(n.reset(new ip::tcp::socket(std::move(*c.csock))));
+				API(c.csock.reset());
+				c.csock = std::move(n); c.c.sock = c.csock.get();
+				R().count("connected_sockets_moved");
+			}
 			error_code e2; API(c.csock->non_blocking(true, e2));
 			kick(c);
 		})));
 	}
 
 	bool traffic_enabled = true;
+	bool move_after_connect = false;
 	// (re)start reads and writes on both sides once both ends are up
 	void kick(Conn& c)
 	{
@@ -600,6 +620,7 @@ void case_c20(Args const& a, std::uint64_t c)
 	w.desc = fmt("C20 mtu(A,B)=%d (default elsewhere 1475)", w.mtu);
 	route_setup(w, false, true, 2);
 	w.build();
+	w.move_after_connect = rng.coin(1, 3);
 	Conn& cn = w.add_conn();
 	static int const ks[] = {1, 2, 3, 10};
 	for (Side* s : {&cn.c, &cn.s})
